@@ -155,12 +155,23 @@ def Config.banRejects (cfg : Config) (h : Hir) : Bool :=
   | some b => banned b h
   | none => false
 
+/-- `strip_from_match` as the real code runs it: every `strip_from_match_ascii` pass rebuilds the tree
+through regex-syntax's smart constructors (`norm`, external), so under CRLF the second pass sees the
+*normalised* result of the first (e.g. `b|[\r\n]` → `b|[\n]` → `[\nb]` → `[b]` is accepted). -/
+def stripN (norm : Hir → Hir) (h : Hir) (lt : LineTerm) : Except StripErr Hir :=
+  match lt with
+  | .crlf =>
+    match stripAscii h 13 with
+    | .ok h1 => stripAscii (norm h1) 10
+    | .error e => .error e
+  | .byte b => stripAscii h b
+
 /-- the `strip_from_match` step of `ConfiguredHIR::new` -/
-def Config.stripped (cfg : Config) (h : Hir) : Except BuildErr Hir :=
+def Config.stripped (cfg : Config) (norm : Hir → Hir) (h : Hir) : Except BuildErr Hir :=
   match cfg.lineTerm with
   | none => .ok h
   | some lt =>
-    match strip h lt with
+    match stripN norm h lt with
     | .ok h' => .ok h'
     | .error e => .error (.strip e)
 
@@ -170,10 +181,11 @@ def fixedHir (pats : List Bytes) : Hir :=
 
 /-- `ConfiguredHIR::new`, given what the external translator returned for `patternText`
 (only consulted on the non-fixed route). -/
-def Config.configuredHir (cfg : Config) (pats : List Bytes) (translated : Hir) : Except BuildErr Hir :=
+def Config.configuredHir (cfg : Config) (norm : Hir → Hir) (pats : List Bytes) (translated : Hir) :
+    Except BuildErr Hir :=
   if cfg.isFixedStrings pats then .ok (fixedHir pats)
   else if cfg.banRejects translated then .error (.banned (cfg.ban.getD 0))
-  else cfg.stripped translated
+  else cfg.stripped norm translated
 
 /-- what the user asked for, before the terminator is stripped: the alternation of the literal
 patterns on the fixed-strings route, otherwise what the translator made of `patternText` -/
@@ -231,7 +243,7 @@ which the real code rebuilds every node (`Hir::concat`, `Hir::class`, …): an e
 meaning-preserving normalisation of the tree. -/
 def Config.build (cfg : Config) (pats : List Bytes) (translated : Hir) (accelerated : Bool)
     (optimize : Seq → Seq) (norm : Hir → Hir) : Except BuildErr MatcherM :=
-  match cfg.configuredHir pats translated with
+  match cfg.configuredHir norm pats translated with
   | .error e => .error e
   | .ok h0 =>
     let h := norm (cfg.wrap h0)
